@@ -35,7 +35,7 @@
 (***************************************************************************)
 EXTENDS Integers, Sequences, FiniteSets, TLC, Json
 
-CONSTANTS Family,   \* "S" | "H1" | "H2" | "N" | "M" | "C" | "Z" | "ZH" | "X"
+CONSTANTS Family,   \* "S" | "H1" | "H2" | "N" | "M" | "C" | "Z" | "ZH" | "D" | "X"
           G,        \* family S: grid is 0..G-1 x 0..G-1 ; others: size parameter
           MaxV,     \* family S: maximal number of vertices ; others: size parameter
           Emit,     \* print the cases as JSON
@@ -99,6 +99,19 @@ EpsValidSet(polys) ==
   /\ \A k, m \in 1..Len(polys) : k < m => ContoursDisjoint(polys[k], polys[m])
   /\ \A k \in 1..Len(polys) :
        IF Depth(polys, k) % 2 = 0 THEN Area2(polys[k]) > 0 ELSE Area2(polys[k]) < 0
+
+(* duplicate vertices: a contour in which a vertex is repeated (a zero-length  *)
+(* edge) is not simple, but it is epsilon-valid for every epsilon > 0 when the *)
+(* contour without the repetitions is valid: moving the copy along the next    *)
+(* edge by less than epsilon gives a valid polygon with a collinear vertex.    *)
+(* ("duplicate-within-epsilon vertices" of the property's quantifier)          *)
+RECURSIVE UndupFrom(_, _)
+UndupFrom(c, i) ==
+  IF i > Len(c) THEN <<>>
+  ELSE (IF XY(c[i]) = XY(c[IF i = 1 THEN Len(c) ELSE i - 1]) THEN <<>> ELSE <<c[i]>>) \o UndupFrom(c, i + 1)
+UndupSet(polys) == [k \in 1..Len(polys) |-> UndupFrom(polys[k], 1)]
+EpsValidWithDups(polys) == EpsValidSet(UndupSet(polys))
+DupAt(c, i) == [j \in 1..(Len(c) + 1) |-> IF j <= i THEN c[j] ELSE c[j - 1]]
 
 NumVerts(polys) == SumSeq([k \in 1..Len(polys) |-> Len(polys[k])])
 NumOuter(polys) == Cardinality({ k \in 1..Len(polys) : Area2(polys[k]) > 0 })
@@ -171,9 +184,11 @@ RemoveAt(r, i) == [j \in 1..(Len(r) - 1) |-> IF j < i THEN r[j] ELSE r[j + 1]]
 Prv(i, n) == IF i = 1 THEN n ELSE i - 1
 IsEar(r, i) ==
   LET n == Len(r)  a == r[Prv(i, n)]  b == r[i]  c == r[Nx(i, n)] IN
-  IF Orient(a, b, c) = 0 THEN DotAt(a, b, c) < 0      \* straight vertex: flat ear
-  ELSE /\ Orient(a, b, c) > 0
-       /\ \A j \in 1..n : (j # i /\ j # Prv(i, n) /\ j # Nx(i, n)) => ~InTriClosed(a, b, c, r[j])
+  IF Orient(a, b, c) = 0
+    THEN DotAt(a, b, c) < 0 \/ XY(a) = XY(b) \/ XY(b) = XY(c)      \* straight or repeated vertex: flat ear
+    ELSE /\ Orient(a, b, c) > 0
+         /\ \A j \in 1..n : (j # i /\ j # Prv(i, n) /\ j # Nx(i, n) /\ XY(r[j]) \notin { XY(a), XY(b), XY(c) })
+                                 => ~InTriClosed(a, b, c, r[j])
 RECURSIVE EarClip(_)
 EarClip(r) ==
   IF Len(r) < 3 THEN <<>>
@@ -262,7 +277,7 @@ FamN(maxd) ==
 (* to the right of / above / inside the notch of the first                   *)
 FamM(n) ==
   LET T == { Rev(t) : t \in TrisCCW(PtsIn(1, 1, n - 1, n - 1)) }
-      S == TrisCCW(PtsIn(0, 0, 1, 2)) \cup { Rect(0, 0, 1, 1), Rect(0, 0, 1, 2) }
+      S == { << <<0, 0>>, <<1, 0>>, <<0, 2>> >>, << <<0, 1>>, <<1, 0>>, <<1, 2>> >>, Rect(0, 0, 1, 1) }
       B == { Shift(t, n + 1, 0) : t \in S } \cup { Shift(t, n + 1, n - 2) : t \in S } \cup
            { Shift(t, 3, 3) : t \in S }                       \* inside the notch of the L
   IN { <<o, h, b>> : o \in { Rect(0, 0, n, n), LShape(n) }, h \in T, b \in B }
@@ -305,6 +320,16 @@ FamZH(n) ==
             <<Rect(0, 0, 14, 14), Rev(Star(7, 7, k, 2)), Star(7, 7, k, 1)>>,
             <<Rect(0, 0, 14, 14), Rev(Star(4, 4, k, 1)), Rev(Star(10, 9, k, 1))>> } : k \in [1..8 -> 1..n] }
 
+(* D: one vertex repeated, at every position of every contour of the valid     *)
+(* sets of a base family (combs/staircases, square and L with a triangular     *)
+(* hole, star octagons): V grows by one, so does the number of triangles       *)
+BaseD(n) ==
+  { s \in FamC(2) \cup { <<o, Rev(t)>> : o \in { Rect(0, 0, n, n), LShape(n) }, t \in TrisCCW(PtsIn(1, 1, n - 1, n - 1)) } : EpsValidSet(s) }
+  \cup { <<Star(2, 2, k, 1)>> : k \in [1..8 -> 1..2] }
+FamD(n) ==
+  UNION { { [s EXCEPT ![kk[1]] = DupAt(s[kk[1]], kk[2])] :
+              kk \in { q \in (1..Len(s)) \X (1..16) : q[2] <= Len(s[q[1]]) } } : s \in BaseD(n) }
+
 (* X: ARBITRARY finite contours (repeated points, self-intersections, zero    *)
 (* area, clockwise outers, overlapping pairs): only termination and "indices  *)
 (* are input indices" are demanded of these, unless the set happens to be     *)
@@ -317,7 +342,7 @@ FamX(n) ==
   \cup { << <<p>> >> : p \in { <<0, 0>>, <<1, 2>> } }        \* a contour of one point
   \cup { << Rect(0, 0, 2, 2), <<p>> >> : p \in { <<1, 1>>, <<3, 0>> } }
 
-Fam(f) == CASE f = "X" -> FamX(MaxV) [] f = "Z" -> FamZ(G) [] f = "ZH" -> FamZH(G) [] f = "H1" -> FamH1(G) [] f = "H2" -> FamH2(G) [] f = "N" -> FamN(MaxV)
+Fam(f) == CASE f = "X" -> FamX(MaxV) [] f = "D" -> FamD(G) [] f = "Z" -> FamZ(G) [] f = "ZH" -> FamZH(G) [] f = "H1" -> FamH1(G) [] f = "H2" -> FamH2(G) [] f = "N" -> FamN(MaxV)
             [] f = "M" -> FamM(G) [] f = "C" -> FamC(G)
             [] OTHER -> {}
 
@@ -348,9 +373,11 @@ CanClose(q) ==
   /\ \E i \in 1..n : q[i][2] = 0
   /\ Area2(q) > 0
 
+InputOK(ps) == IF Family = "D" THEN EpsValidWithDups(ps) ELSE EpsValidSet(ps)
 Case(ps) ==
   LET ip == Indexed(ps) IN
-  [fam |-> Family, polys |-> ip, valid |-> (Family # "X" \/ EpsValidSet(ps)),
+  [fam |-> Family, polys |-> ip, valid |-> (Family # "X" \/ InputOK(ps)),
+   dup |-> NumVerts(ps) - NumVerts(UndupSet(ps)),
    V |-> NumVerts(ps), h |-> NumHoles(ps), o |-> NumOuter(ps),
    ntri |-> ExpectedTris(ps), area2 |-> SetArea2(ps)]
 
@@ -371,7 +398,7 @@ Close == /\ Family = "S" /\ ~done /\ CanClose(path)
          /\ polys' = <<path>> /\ done' = TRUE /\ UNCHANGED path
          /\ (Emit => PrintT(<<"BEH", ToJson(Case(<<path>>))>>))
 EmitSet == /\ Family # "S" /\ ~done
-           /\ (IF Family = "X" THEN TRUE ELSE EpsValidSet(polys))
+           /\ (IF Family = "X" THEN TRUE ELSE InputOK(polys))
            /\ done' = TRUE /\ UNCHANGED <<path, polys>>
            /\ (Emit => PrintT(<<"BEH", ToJson(Case(polys))>>))
 Next == Extend \/ Close \/ EmitSet
@@ -382,7 +409,7 @@ Next == Extend \/ Close \/ EmitSet
 (* the incremental generator and the full independent predicate agree; every *)
 (* emitted set has positive area and a positive triangle count               *)
 GenValid == (done /\ Family # "X") =>
-                            /\ EpsValidSet(polys)
+                            /\ InputOK(polys)
                             /\ SetArea2(polys) > 0
                             /\ ExpectedTris(polys) >= 1
                             /\ NumOuter(polys) >= 1
@@ -398,7 +425,7 @@ GCD(a, b) == IF b = 0 THEN a ELSE GCD(b, a % b)
 Abs(x) == IF x < 0 THEN -x ELSE x
 BoundaryPts(c) == SumSeq([i \in 1..Len(c) |-> GCD(Abs(c[Nx(i, Len(c))][1] - c[i][1]), Abs(c[Nx(i, Len(c))][2] - c[i][2]))])
 PickOK ==
-  (done /\ (Family # "X" \/ EpsValidSet(polys))) =>
+  (done /\ (Family # "X" \/ InputOK(polys))) =>
     LET V == VertsOf(polys)
         xs == { v[1] : v \in V }  ys == { v[2] : v \in V }
         x0 == CHOOSE x \in xs : \A z \in xs : x <= z   x1 == CHOOSE x \in xs : \A z \in xs : x >= z
@@ -411,12 +438,12 @@ PickOK ==
 
 (* the C10 predicate is satisfiable with exactly the stated count: the       *)
 (* reference ear clipper's output satisfies it on every hole-free set        *)
-RefValid == (done /\ HoleFree(polys) /\ (Family # "X" \/ EpsValidSet(polys))) =>
+RefValid == (done /\ HoleFree(polys) /\ (Family # "X" \/ InputOK(polys))) =>
                ValidTriangulation(Indexed(polys), RefTri(Indexed(polys), 1))
 (* ... and it is not vacuous: corrupting the reference output is rejected    *)
 FlipTri(t) == <<t[1], t[3], t[2]>>
 MutantsRejected ==
-  (done /\ HoleFree(polys) /\ (Family # "X" \/ EpsValidSet(polys))) =>
+  (done /\ HoleFree(polys) /\ (Family # "X" \/ InputOK(polys))) =>
     LET ip == Indexed(polys)
         ref == RefTri(ip, 1)
         flipped == [ref EXCEPT ![1] = FlipTri(ref[1])]
